@@ -12,18 +12,25 @@ import socket
 from common import coq
 
 PID = "C44"
+GENS = ["c44"]
 LEVEL_TEXT = ("Machine-checked proof (Coq, closed under the global context) over a model of "
               "AuthStrategy.authenticate (fold over the produced sources, outcomes as an oracle) that sources "
               "are called in the produced order, that the run stops at the first source that returns and lists "
               "every attempted source with its outcome, that AuthFailure is raised exactly when every source "
               "raised (also for zero sources) and carries every source with its error, with a complete case "
               "analysis including exceptions the loop does not catch; tied to auth_strategy.py by an exhaustive "
-              "(lengths 0..8) and random differential run of the model against the real class on every run.")
+              "(lengths 0..8) and random differential run of the model against the real class on every run, including "
+              "the real NoneAuth/Password/InMemoryPrivateKey/OnDiskPrivateKey sources over a recording transport "
+              "and the SSHClient.connect(auth_strategy=...) path; the loop's shape is re-read from the source "
+              "(gen/c44.py) and proved equal to the model's assumptions (C44_source_shape).")
 LEVEL_NOTE = ("Trusted: Coq kernel + vm_compute; hand-written model coq/Model/C44.v validated by the "
-              "correspondence run. 'Succeeds' means authenticate() returned without raising (any return value, "
+              "correspondence run and tied to the source's shape by the translator gen/c44.py (AST of "
+              "AuthStrategy.authenticate, the AuthSource classes, AuthResult/SourceResult/AuthFailure and the "
+              "SSHClient.connect glue; fail-closed) through theorem C44_source_shape. 'Succeeds' means authenticate() returned without raising (any return value, "
               "including a non-empty list of remaining methods). Exceptions raised by get_sources() itself and "
               "logging are outside the model.")
-TECHNIQUE = "Coq proof (induction over the source list) + exhaustive/random vm_compute differential correspondence"
+TECHNIQUE = ("Coq proof (induction over the source list) over a loop shape generated from the source by a "
+             "fail-closed AST translator + exhaustive/random vm_compute differential correspondence")
 
 
 class _CustomBase(BaseException):
@@ -113,6 +120,8 @@ def drive_session(scripts):
             for src in made:
                 if src.produced is e and src.kind == 2:
                     idx = src.idx
+                elif src.produced is e and src.kind == 1:
+                    idx = 1000 + src.idx
             canon = [2, idx]
         out.append((canon + [-1] + trace, info))
     return out
@@ -172,6 +181,192 @@ def oracle(ctx, script, info, history=()):
                      case=case, observed=info["final"])
 
 
+class RecTransport:
+    """Records every Transport method the sources call; the i-th auth call follows plan[i]."""
+
+    def __init__(self, plan, log):
+        self.plan, self.log, self.n = plan, log, 0
+        self.gss_kex_used = False
+
+    def _auth(self, name, *args):
+        i = self.n
+        self.n += 1
+        self.log.append(("auth", name, args))
+        kind, obj = self.plan[i] if i < len(self.plan) else (1, RuntimeError("unplanned transport call"))
+        if kind == 0:
+            return obj
+        raise obj
+
+    def auth_none(self, username):
+        return self._auth("auth_none", username)
+
+    def auth_password(self, username, password, *a, **k):
+        return self._auth("auth_password", username, password, *a)
+
+    def auth_publickey(self, username, key, *a, **k):
+        return self._auth("auth_publickey", username, key, *a)
+
+    def auth_interactive(self, *a, **k):
+        return self._auth("auth_interactive", *a)
+
+    def auth_interactive_dumb(self, *a, **k):
+        return self._auth("auth_interactive_dumb", *a)
+
+    # what SSHClient.connect needs
+    def use_compression(self, compress=False):
+        self.log.append(("use_compression",))
+
+    def set_gss_host(self, **k):
+        self.log.append(("set_gss_host",))
+
+    def set_log_channel(self, name):
+        pass
+
+    def start_client(self, timeout=None):
+        self.log.append(("start_client",))
+
+    def get_remote_server_key(self):
+        return self.hostkey
+
+    def close(self):
+        self.log.append(("close",))
+
+
+SOURCE_KINDS = ["NoneAuth", "Password", "InMemoryPrivateKey", "OnDiskPrivateKey"]
+
+
+def drive_glue(ctx, order, plan_spec, via_client):
+    """order: list of source kinds; plan_spec: [(kind, idx)] outcome of the i-th transport auth call.
+    Real AuthSource classes, a real AuthStrategy, a recording transport; optionally through
+    SSHClient.connect(auth_strategy=..., transport_factory=...).  Returns (canonical, failures)."""
+    import os
+    from paramiko.auth_strategy import (AuthStrategy, AuthResult, AuthFailure, SourceResult, NoneAuth, Password,
+                                        InMemoryPrivateKey, OnDiskPrivateKey)
+    from paramiko.config import SSHConfig
+    from paramiko import Ed25519Key
+    values, excs, escapes = tables()
+    key = Ed25519Key.from_private_key_file(os.path.join(ctx.repo, "tests", "_support", "ed25519.key"))
+    log, getter_calls, made, trace = [], [], [], []
+    plan = [(k, (values if k == 0 else excs if k == 1 else escapes)[i]()) for k, i in plan_spec]
+
+    def make(i, kind):
+        if kind == "NoneAuth":
+            return NoneAuth("user%d" % i), ("auth_none", ("user%d" % i,))
+        if kind == "Password":
+            def getter():
+                getter_calls.append(i)
+                return "pw%d" % i
+            return Password("user%d" % i, getter), ("auth_password", ("user%d" % i, "pw%d" % i))
+        if kind == "InMemoryPrivateKey":
+            return InMemoryPrivateKey("user%d" % i, key), ("auth_publickey", ("user%d" % i, key))
+        return (OnDiskPrivateKey("user%d" % i, "ssh-config", "/nonexistent/id_%d" % i, key),
+                ("auth_publickey", ("user%d" % i, key)))
+
+    expected_calls = []
+
+    class Real(AuthStrategy):
+        def get_sources(self):
+            for i, kind in enumerate(order):
+                src, call = make(i, kind)
+                made.append(src)
+                expected_calls.append(call)
+                trace.extend([1, i])
+                yield src
+
+    strat = Real(ssh_config=SSHConfig())
+    transports = []
+    final, res, exc, ret = None, None, None, None
+    try:
+        if via_client:
+            from paramiko import SSHClient, MissingHostKeyPolicy
+
+            def factory(sock, **kw):
+                t = RecTransport(plan, log)
+                t.hostkey = key
+                t.sock = sock
+                transports.append(t)
+                return t
+            client = SSHClient()
+            client.set_missing_host_key_policy(MissingHostKeyPolicy())
+            ret = client.connect("host.invalid", username="ignored", sock=object(), auth_strategy=strat,
+                                 transport_factory=factory, password="old-flow-password", look_for_keys=False,
+                                 allow_agent=False)
+        else:
+            t = RecTransport(plan, log)
+            transports.append(t)
+            ret = strat.authenticate(t)
+        final, res = "return", ret
+    except AuthFailure as e:
+        final, exc, res = "authfailure", e, getattr(e, "result", None)
+    except BaseException as e:      # noqa
+        final, exc = "propagated", e
+    auth_calls = [c for c in log if c[0] == "auth"]
+    # canonical output in the model's terms: source i has the outcome of the i-th transport call
+    first = next((i for i, (k, _) in enumerate(plan_spec[:len(order)]) if k != 1), None)
+    attempted = len(order) if first is None else first + 1
+    fails = []
+    want_calls = [("auth",) + c for c in expected_calls[:attempted]]
+    got_calls = [(c[0], c[1], tuple(c[2])) for c in auth_calls]
+    if got_calls != [(c[0], c[1], tuple(c[2])) for c in want_calls] or len(made) != attempted:
+        fails.append(("glue-transport-call", "the sources did not make exactly one call each of the expected "
+                      "Transport method (auth_none / auth_password / auth_publickey) with (username, credential), "
+                      "in order, up to the first success", [list(map(repr, c[1:])) for c in want_calls],
+                      [list(map(repr, c[1:])) for c in got_calls]))
+    want_getters = [i for i, k in enumerate(order[:attempted]) if k == "Password"]
+    if getter_calls != want_getters:
+        fails.append(("glue-password-getter", "the password getter was not called exactly once per attempted "
+                      "Password source", want_getters, getter_calls))
+
+    def listed_ok(r, n):
+        if not isinstance(r, AuthResult) or r.strategy is not strat or len(r) != n:
+            return False
+        for x, src, (k, obj) in zip(r, made, plan):
+            if not isinstance(x, SourceResult) or x.source is not src or x.result is not obj:
+                return False
+        return True
+
+    if first is None:
+        if final != "authfailure" or type(exc) is not AuthFailure or not listed_ok(res, len(order)):
+            fails.append(("failure-carries-all", "no source succeeded: AuthFailure carrying every source with its "
+                          "error was expected", "AuthFailure/%d" % len(order), "%s/%r" % (final, res)))
+    elif plan_spec[first][0] == 0:
+        if final != "return" or not listed_ok(res, attempted):
+            fails.append(("result-lists-all", "a source succeeded: a result listing each attempted source with its "
+                          "outcome was expected", "return/%d" % attempted, "%s/%r" % (final, res)))
+    else:
+        if final != "propagated" or exc is not plan[first][1]:
+            fails.append(("escape", "a non-Exception BaseException did not propagate unchanged", "propagated", final))
+    if via_client:
+        names = [c[0] if c[0] != "auth" else "auth" for c in log]
+        ok = (len(transports) == 1 and "start_client" in names
+              and (("auth" not in names) or names.index("start_client") < names.index("auth")))
+        if not ok or any(c[0] == "auth" and c[1] == "auth_password" and c[2][1] == "old-flow-password" for c in log):
+            fails.append(("glue-client-connect", "SSHClient.connect(auth_strategy=...) did not hand the started "
+                          "transport to the strategy exactly once (or ran the old auth flow as well)", None, names))
+    # canonical (model terms)
+    def triples(r):
+        out = []
+        for x in (r or []):
+            i = made.index(x.source) if x.source in made else -99
+            k, ix = plan_spec[i] if 0 <= i < len(plan_spec) else (-99, -99)
+            out += [i, k, ix]
+        return out
+    if final == "return":
+        canon = [0] + triples(res)
+    elif final == "authfailure":
+        canon = [1] + triples(res)
+    else:
+        ix = -97
+        for (k, i2), (_k, obj) in zip(plan_spec, plan):
+            if obj is exc:
+                ix = i2 if k == 2 else 1000 + i2
+        canon = [2, ix]
+    ev = []
+    for i in range(len(made)):
+        ev += [1, i] + ([2, i] if i < len(auth_calls) else [])
+    return canon + [-1] + ev, fails
+
+
 def coq_script(script):
     ctor = {0: "Returns", 1: "Raises", 2: "Escapes"}
     return "[" + ";".join("(%s, %s %d)" % (coq(sid), ctor[k], i) for sid, k, i in script) + "]"
@@ -190,7 +385,7 @@ def run(ctx):
                 % (len(values), len(excs), len(escapes)))
     ctx.trusted += ["model coq/Model/C44.v is hand-written; tied to AuthStrategy.authenticate by this run",
                     "exceptions raised inside get_sources() itself, and logging, are not modelled"]
-    ctx.prove()
+    ctx.prove(GENS)
     cases = []
 
     def one(script, kind):
@@ -251,7 +446,38 @@ def run(ctx):
                           (pos, 2, rng.randrange(len(escapes))) if u < 0.32 else (pos, 1, rng.randrange(len(excs))))
             scripts.append(sc)
         session(scripts, "session-random")
-    bad = ctx.model_mismatches("run_auth", "(list source)", [(coq_script(s), c) for s, c in cases])
+    # ---- glue: the real AuthSource classes over a recording transport, directly and through
+    #      SSHClient.connect(auth_strategy=..., transport_factory=...) -----------------------------
+    def glue(order, plan_spec, via_client):
+        canon, fails = drive_glue(ctx, order, plan_spec, via_client)
+        case = {"glue": {"order": order, "plan": [list(x) for x in plan_spec], "via_client": via_client}}
+        for key, what, exp, obs in fails:
+            ctx.fail(key, what, case=case, expected=exp, observed=obs)
+        cases.append(([(i, k, ix) for i, (k, ix) in enumerate(plan_spec[:len(order)])], canon))
+        ctx.count(("glue", tuple(order), tuple(plan_spec), via_client), kind="glue-client" if via_client else "glue-direct")
+
+    for via in (False, True):
+        for kind in SOURCE_KINDS:
+            glue([kind], [(0, 0)], via)
+            glue([kind], [(1, 0)], via)
+            glue([kind, kind], [(1, 2), (0, 1)], via)
+        glue([], [], via)
+        glue(list(SOURCE_KINDS), [(1, 0), (1, 3), (1, 5), (1, 1)], via)
+        glue(list(reversed(SOURCE_KINDS)), [(1, 0), (1, 3), (0, 0), (1, 1)], via)
+    for _ in range(40 * scale):
+        order = [rng.choice(SOURCE_KINDS) for _k in range(rng.randrange(0, 6))]
+        plan_spec = []
+        for _k in order:
+            u = rng.random()
+            plan_spec.append((0, rng.randrange(len(values))) if u < 0.3 else
+                             (2, rng.randrange(len(escapes))) if u < 0.36 else (1, rng.randrange(len(excs))))
+        glue(order, plan_spec, rng.random() < 0.5)
+
+    try:
+        bad = ctx.model_mismatches("run_auth", "(list source)", [(coq_script(s), c) for s, c in cases])
+    except Exception as e:      # noqa - the oracle above does not depend on the model
+        ctx.corr_broken.append({"what": "model evaluation failed", "error": str(e)[-1500:]})
+        bad = []
     for i in bad[:3]:
         ctx.disagree("AuthStrategy.authenticate differs from the model", case={"script": [list(x) for x in cases[i][0]]},
                      impl=cases[i][1])
@@ -262,6 +488,14 @@ def run(ctx):
 
 def replay(ctx, rep):
     case = rep["case"]
+    if "glue" in case:
+        g = case["glue"]
+        ctx.count(("replay", repr(g)))
+        ctx.count(("replay2", repr(g)))
+        canon, fails = drive_glue(ctx, g["order"], [tuple(x) for x in g["plan"]], g["via_client"])
+        for key, what, exp, obs in fails:
+            ctx.fail(key, what, case=case, expected=exp, observed=obs)
+        return
     scripts = [[tuple(x) for x in sc] for sc in (case["session"] if "session" in case else [case["script"]])]
     res = drive_session(scripts)
     ctx.count(("replay", repr(scripts)))
